@@ -45,6 +45,7 @@ type responseWriter struct {
 	beforeFuncs []BeforeFunc // The list of functions to be called before written to the response.
 
 	writeHeaderOnce sync.Once
+	beforePanicked  bool // Whether a before function has panicked, in which case no status has been sent.
 }
 
 // BeforeFunc is a function that is called before the ResponseWriter is written.
@@ -60,17 +61,29 @@ func NewResponseWriter(method string, w http.ResponseWriter) ResponseWriter {
 
 func (w *responseWriter) callBefore() {
 	for i := len(w.beforeFuncs) - 1; i >= 0; i-- {
-		w.beforeFuncs[i](w)
+		fn := w.beforeFuncs[i]
+		w.beforeFuncs = w.beforeFuncs[:i] // Never call a function twice, even if it panics.
+		fn(w)
 	}
 }
 
 func (w *responseWriter) WriteHeader(s int) {
+	if w.beforePanicked {
+		// A before function has panicked so the status has never been sent, the next
+		// call (e.g. made by the Recovery) must still be able to send one.
+		w.beforePanicked = false
+		w.writeHeaderOnce = sync.Once{}
+	}
+
 	w.writeHeaderOnce.Do(func() {
 		if w.Written() {
 			return
 		}
 
+		completed := false
+		defer func() { w.beforePanicked = !completed }()
 		w.callBefore()
+		completed = true
 		w.ResponseWriter.WriteHeader(s)
 		atomic.StoreInt32(&w.status, int32(s))
 	})
